@@ -243,3 +243,12 @@ package daemon
 //@   ensures item.Type == "eniIp" || item.Type == "eni" ==> asptr(result, eni.LocalIPResource).ENI.ID == item.ENIID && asptr(result, eni.LocalIPResource).ENI.MAC == item.ENIMAC
 //@   ensures (item.Type == "eniIp" || item.Type == "eni") && item.IPv4 != "" ==> asptr(result, eni.LocalIPResource).IP.IPv4 == parseAddr(item.IPv4)
 //@   ensures (item.Type == "eniIp" || item.Type == "eni") && item.IPv6 != "" ==> asptr(result, eni.LocalIPResource).IP.IPv6 == parseAddr(item.IPv6)
+
+//@ for C06
+//@ # ---- start-up: the daemon creates a trunk interface only while the node has a free interface slot: every attached
+//@ # ---- non-primary interface (secondary, trunk or ERDMA alike) counts against the quota ----
+//@ ghost c06attached int = 0
+//@ func initTrunk
+//@   requires config != nil && poolConfig != nil && k8sClient != nil && f != nil
+//@   at call GetAttachedNetworkInterface: ghost c06attached = len(result0)
+//@ guard call CreateNetworkInterface in initTrunk: c06attached < poolConfig.MaxENI
